@@ -41,7 +41,7 @@ BIND_NAMES = ['go', 'run', 'procedure_p', 'generic_g', 'call_b', 'final_f', 'p',
 IFACE_STEMS = ['gen', 'interface', 'gi', 'module', 'procedure', 'end_interface']
 KW_VARS = ['call_count', 'real_x', 'type_id', 'integer_n', 'use_flag', 'module_v', 'subroutine_s', 'function_f',
            'interface_i', 'contains_c', 'end_v', 'endif_v', 'procedure_p', 'generic_g', 'logical_l',
-           'character_c', 'class_c', 'if_call', 'do_i', 'print_p', 'callx', 'usex', 'typex', 'enddo_v',
+           'character_c', 'class_c', 'if_call', 'do_i', 'print_p', 'callx', 'usex', 'typex', 'end_do_v',
            'call_', 'use_', 'import_i', 'only_o']
 PLAIN_VARS = ['i1', 'tmp', 'acc', 'j2', 'w']
 STRINGS = ['call foo(x)', 'end subroutine', 'use m, only: a => b', 'type :: t', 'contains', "it's", 'a ! not a comment',
@@ -55,7 +55,7 @@ COMMENTS = ['call subroutine end do', "if (x) then; 'quoted' end if", 'use modul
 QUOTE_COMMENTS = ["it's", 'say "hi', "don't & won't"]
 
 DEFAULT_PROFILE = {
-    'max_modules': 3, 'max_free': 3, 'max_routines': 3, 'max_stmts': 6, 'max_depth': 2,
+    'max_modules': 2, 'max_free': 2, 'max_routines': 2, 'max_stmts': 4, 'max_depth': 2,
     'types': True, 'ifaces': True, 'internal': True, 'functions': True, 'blocks': True,
     'kw_names': True, 'strings': True, 'labels': True, 'ext_modules': True, 'intrinsic_modules': True,
     # ---- triggers of confirmed findings: off in the search profile, counted with ctx.exclude, kept in replays
@@ -71,7 +71,19 @@ DEFAULT_PROFILE = {
     'proc_list': True,         # module procedure a, b  with '::'
     'typed_prefix': True,      # typed function headers  integer function f(x)
     'free_iface_modproc': True,  # free routine with 'module procedure' in a generic interface, followed by a module
+    'pass_arg': True,          # procedure, pass(this) :: b => p
+    'extends_spaced': True,    # type, extends( parent ) :: child   (blanks inside the parentheses)
+    'mod_type_string': True,   # module-level character constant whose text looks like a TYPE statement
+    'internal_before_module': True,  # module procedure with internal procedures in a module that is followed by another module
+    'iface_fun_body': True,    # interface body of a FUNCTION whose result type is declared in its specification part
 }
+TRIGGER_FLAGS = ['kw_lhs', 'use_nature', 'bare_end', 'deferred', 'final', 'cond_string', 'char_star_fun', 'free_iface_modproc',
+                 'pass_arg', 'extends_spaced', 'mod_type_string', 'internal_before_module', 'iface_fun_body']
+
+
+def looks_like_type_stmt(text):
+    import re
+    return re.search(r'type(?:\s*,\s*[\w()]+)*?(?:\s*::\s*|\s+)\w', text, re.I) is not None
 
 
 def profile(**kw):
@@ -236,7 +248,8 @@ def files(draw, prof=None):
             nm = (b.pick(KW_VARS) if p['kw_names'] and b.chance(60) else 'nv') + f'_{L}{j}'
             m['vars'].append([nm, b.i(0, 9)])
         if p['strings'] and b.chance(30):
-            m['strs'].append([f'str_{L}', b.pick(STRINGS)])
+            pool = STRINGS if p.get('mod_type_string') else [t_ for t_ in STRINGS if not looks_like_type_stmt(t_)]
+            m['strs'].append([f'str_{L}', b.pick(pool)])
         if p['types']:
             for j in range(b.i(0, 2) if b.chance(65) else 0):
                 stem = b.pick(TYPE_STEMS) if p['kw_names'] else 't'
@@ -273,6 +286,8 @@ def files(draw, prof=None):
                 t['attrs'].append(f'extends({m["types"][0]["name"]})')
                 t['extends'] = m['types'][0]['name']
                 t['comps'] = []
+                if p.get('extends_spaced') and b.chance(30):
+                    t['extends_spaced'] = True
             if p['kw_names'] and b.chance(40):
                 t['comps'].append([b.pick(KW_VARS) + f'_{ti}', None])
             # member of an earlier type (same module or an earlier module)
@@ -292,7 +307,7 @@ def files(draw, prof=None):
                 m['routines'].append(r)
                 attrs = []
                 if b.chance(25):
-                    attrs.append(b.pick(['pass', 'public', 'non_overridable', 'pass(this)']))
+                    attrs.append(b.pick(['pass', 'public', 'non_overridable'] + (['pass(this)'] if p.get('pass_arg') else [])))
                 if b.chance(50):
                     t['procs'].append(['proc', pname, None, attrs, None])
                     r['_binding'] = pname
@@ -332,7 +347,7 @@ def files(draw, prof=None):
                 m['ifaces'].append(['generic', f'{stem}_i{L}', procs, form])
             if b.chance(15):
                 m['ifaces'].append(['abstract', [['sub', f'abs_{L}', 'x']] +
-                                    ([['fun', f'absf_{L}', 'fun']] if b.chance(40) else [])])
+                                    ([['fun', f'absf_{L}', 'fun']] if p.get('iface_fun_body') and b.chance(40) else [])])
             if p.get('operator_iface') and m['types'] and not m['types'][0].get('abstract') and b.chance(10):
                 fn = f'opf_{L}'
                 r = _new_routine('fun', fn, 'op', this=m['types'][0]['name'])
@@ -359,7 +374,7 @@ def files(draw, prof=None):
                 r['typed'] = b.pick(['integer', 'integer(kind=4)', 'integer (4)'])
                 if r['prefix'] and b.chance(50):
                     r['_typed_first'] = True
-            if b.chance(40):
+            if b.chance(40) or (p.get('kw_lhs') is False and r['name'].startswith('call')):
                 r['result'] = b.pick(['res', 'result_v', 'function_r'])
         elif r['k'] == 'sub' and r['sig'] in ('x', 'r'):
             c = b.i(0, 9)
@@ -386,7 +401,8 @@ def files(draw, prof=None):
             return
         env = {'r': r, 'scope': scope, 'mod': mod, 'limit': mi_limit, 'nobj': 0, 'depth': depth, 'hosts': list(hosts)}
         # internal procedures first (so the host can call them)
-        if p['internal'] and depth == 0 and r['sig'] in ('x', 'r', 'this', 'fun') and b.chance(30):
+        no_internal = (not p.get('internal_before_module', True) and mod is not None and mod is not modules[-1])
+        if p['internal'] and depth == 0 and r['sig'] in ('x', 'r', 'this', 'fun') and b.chance(22) and not no_internal:
             for j in range(b.i(1, 2)):
                 n = b.fresh()
                 if p['functions'] and b.chance(30):
@@ -508,9 +524,11 @@ def _pure_body(b, r):
     src = 'xin' if r['k'] == 'fun' else None
     body = []
     for nm in r['locals'][:2]:
+        if b.p.get('kw_lhs') is False and nm.startswith('call'):
+            continue
         body.append(['assign', ['v', nm], ['b', '+', ['v', src] if src else ['i', 1], ['i', b.i(0, 9)]], {}])
     if r['k'] == 'fun':
-        body.append(['assign', ['v', res], ['b', '*', ['v', r['locals'][0]], ['i', 2]], {}])
+        body.append(['assign', ['v', res], ['b', '*', ['v', 'xin'], ['i', 2]], {}])
     elif r['sig'] == 'x':
         body.append(['assign', ['v', 'x'], ['b', '+', ['v', 'x'], ['v', r['locals'][0]]], {}])
     else:
@@ -735,8 +753,12 @@ def _body(b, env, depth, n):
 # ---------------------------------------------------------------------------------------------
 # layouts
 # ---------------------------------------------------------------------------------------------
+LAYOUT_TRIGGERS = ['end_gap', 'endjoin_iface', 'quotecomment']
+
+
 @st.composite
-def layouts(draw, plain=False):
+def layouts(draw, plain=False, triggers=()):
+    """triggers: layout keys that provoke listed findings (off unless named here)"""
     if plain:
         return {'stream': [0]}
     i = lambda lo, hi: draw(st.integers(lo, hi))   # noqa: E731
@@ -748,6 +770,10 @@ def layouts(draw, plain=False):
         'strsplit': ch(20), 'semi': ch(35), 'blank': ch(40), 'comments': ch(45), 'trailing': ch(35),
         'endjoin': ch(35), 'spaces': i(0, 2), 'maxlen': [50, 70, 100, 130][i(0, 3)], 'dcolon': ch(75),
         'relop': i(0, 2), 'leadcomment': ch(35), 'tailcomment': ch(25), 'between': ch(40),
+        'endjoin_unit': ch(30), 'endjoin_type': ch(30),
+        'end_gap': ch(60) if 'end_gap' in triggers else False,
+        'endjoin_iface': ch(60) if 'endjoin_iface' in triggers else False,
+        'quotecomment': ch(60) if 'quotecomment' in triggers else False,
     }
 
 
